@@ -192,6 +192,10 @@ func genC18SchemaTag(t *rapid.T, ty C18Type) string {
 			parts = append(parts, "uniqueItems")
 		}
 	}
+	if rapid.IntRange(0, 5).Draw(t, "unknowndirective") == 0 {
+		// keywords the tag parser does not know (other vocabularies, typos): they constrain nothing; the field is still a field
+		parts = append(parts, rapid.SampledFrom([]string{"multipleOf=5", "readOnly=true", "nullable=false", "desciption=typo", "x-order=3", "format=email", "deprecated"}).Draw(t, "unknown"))
+	}
 	if len(parts) > 0 && strings.HasPrefix(parts[0], "description=") && len(parts) > 1 {
 		// keep the description last when it contains commas so the library's directive splitter is exercised both ways
 		if rapid.Bool().Draw(t, "desclast") {
@@ -781,8 +785,8 @@ type typedInput struct {
 	Flag   *bool              `json:"flag,omitempty"`
 	Tags   []string           `json:"tags,omitempty"`
 	Labels map[string]string  `json:"labels,omitempty"`
-	Filter *typedInner        `json:"filter,omitempty"`
-	Nested typedInner         `json:"nested"`
+	Filter *typedInner        `json:"filter,omitempty" jsonschema:"description=an optional filter"`
+	Nested typedInner         `json:"nested" jsonschema:"description=the nested one, again of the inner type"`
 	Scores map[string]float64 `json:"scores,omitempty"`
 	Matrix [][]int            `json:"matrix,omitempty"`
 }
